@@ -348,6 +348,46 @@ def interleaved(n):
     sx.reach("interleaved")
 
 
+def local_read_during_transfer(direction):
+    """the application reads its own node's objects (node.sdo[...].raw, node.sdo.upload) while a client's segmented
+    transfer is under way: the transfer is served / stored exactly as without the local read"""
+    rig = ServerRig(sdo_od())
+    cli = RefClient(rig.deliver, "C02")
+    val = sx.fresh_bytes("val", 20)
+    other = sx.fresh_bytes("other", 30)
+    rig.node.data_store[0x2001] = {0: sx.mkbytes(sx.items(other))}
+    tag = "C02/local-read/%s" % direction
+    if direction == "upload":
+        rig.node.data_store[0x2000] = {0: sx.mkbytes(sx.items(val))}
+        r = cli.xfer([0x40, 0x00, 0x20, 0x00, 0, 0, 0, 0])
+        sx.prove(r is not None and r[0] == 0x41, "initiate", tag + "/prepare")
+        seg1 = cli.xfer([0x60, 0, 0, 0, 0, 0, 0, 0])
+        got_local = rig.node.sdo.upload(0x2001, 0)              # the application looks at another object
+        sx.prove(sx.eq_bytes(got_local, other), "local read", tag + "/local-value")
+        seg2 = cli.xfer([0x70, 0, 0, 0, 0, 0, 0, 0])
+        seg3 = cli.xfer([0x60, 0, 0, 0, 0, 0, 0, 0])
+        ok = all(x is not None for x in (seg1, seg2, seg3))
+        sx.prove(ok, "segments answered", tag + "/answered")
+        if ok:
+            data = seg1[1:8] + seg2[1:8] + seg3[1:7]
+            sx.prove(sx.eq_bytes(sx.mkbytes(data), val), "upload continued with another object's data", tag + "/bytes")
+            sx.prove((seg3[0] & 0x01) == 1, "last segment flagged", tag + "/last")
+    else:
+        r = cli.xfer([0x21, 0x00, 0x20, 0x00, 20, 0, 0, 0])
+        sx.prove(r is not None and r[0] == 0x60, "initiate", tag + "/prepare")
+        it = sx.items(val)
+        cli.xfer([0x00] + it[0:7])
+        got_local = rig.node.sdo.upload(0x2001, 0)
+        sx.prove(sx.eq_bytes(got_local, other), "local read", tag + "/local-value")
+        cli.xfer([0x10] + it[7:14])
+        r = cli.xfer([0x00 | (1 << 1) | 1] + it[14:20] + [0])
+        sx.prove(r is not None and r[0] == 0x20, "last segment confirmed", tag + "/confirmed")
+        st = rig.node.data_store.get(0x2000, {}).get(0)
+        sx.prove(st is not None and len(sx.items(st)) == 20 and sx.eq_bytes(st, val) is not False,
+                 "download stored something else than the transferred bytes", tag + "/stored")
+    sx.reach("local-read")
+
+
 def after_other_transfer(n, m):
     """what an upload serves depends only on the addressed entry: an entry holding n bytes is uploaded after a
     download of m bytes to another entry (history on one server), in particular the empty value after a longer one"""
@@ -375,6 +415,8 @@ def after_other_transfer(n, m):
 def jobs(tier):
     out = []
     q = tier == "quick"
+    for direction in ("upload", "download"):
+        out.append(dict(func="local_read_during_transfer", params=dict(direction=direction)))
     for n, m in ((0, 9), (0, 3), (3, 9), (9, 0), (9, 20), (0, 0)) + (() if q else ((0, 64), (4, 5), (5, 4), (7, 8), (20, 9))):
         out.append(dict(func="after_other_transfer", params=dict(n=n, m=m)))
     lens = list(range(0, 17)) + [20, 21, 22, 28, 64] if q else list(range(0, 65)) + [127, 1000]
@@ -454,7 +496,7 @@ META = dict(
     stubs=["struct", "bytes/bytearray", "dict displays -> SymDict", "logging", "Network.send_message replaced on the instance"],
     required_reach=["upload-callback", "upload-store", "upload-value", "upload-default", "upload-empty",
                     "upload-segmented", "download-exp-size", "download-exp-nosize", "download-seg-size",
-                    "download-seg-nosize", "robust-step", "abort-request", "robust-history", "interleaved", "after-other", "stray", "upload-interrupts", "two-members"],
+                    "download-seg-nosize", "robust-step", "abort-request", "robust-history", "interleaved", "after-other", "local-read", "stray", "upload-interrupts", "two-members"],
     limits=dict(quick=dict(max_decisions=20000), thorough=dict(max_decisions=20000, job_timeout_s=3000)),
     validate_every=dict(quick=5, thorough=50),
     max_validate=dict(quick=60, thorough=60),
